@@ -6,6 +6,7 @@ set -eu
 ID="$1"
 exec 9>"$WORK/build.lock"; flock 9
 case "$ID" in
+  C18) KIND=test18;;
   *) KIND=plain;;
 esac
 case "$KIND" in
@@ -16,4 +17,8 @@ case "$KIND" in
       (cd /repo && go build -o "$WORK/bin/cue" ./cmd/cue) >&2
     fi
     echo "$WORK/bin/verifh";;
+  test18)
+    /verif/lib/gen_overlay.py "$WORK/overlay.json" >&2
+    (cd /repo && go test -c -vet=off -overlay "$WORK/overlay.json" -o "$WORK/bin/c18.test" ./internal/verif/t/c18) >&2
+    echo "$WORK/bin/c18.test";;
 esac
